@@ -210,5 +210,12 @@ theorem C11_concurrent_conservation  :
   have h := StackConc.sinv_reach hc
   exact ⟨h.perm, h.pid_nodup, h.ent_nodup⟩
 
+theorem C11_concurrent_heap_order  :
+    ∀ (c : CSt (Stack Nat) StackConc.Op StackConc.Ret Nat), CReach StackConc.impl (GenericStack.new : Stack Nat) c →
+    TV.GoHeap.IsHeap lessId c.shared.entries ∧
+    ∀ e rest, TV.GoHeap.pop lessId c.shared.entries = some (e, rest) → ∀ x ∈ c.shared.entries, e.1 ≤ x.1 := by
+  intro c hc
+  exact ⟨StackConc.heap_reach hc, fun e rest hp => StackConc.pop_min_reach hc hp⟩
+
 end Proofs
 end TV.LockedObject
